@@ -200,7 +200,7 @@ Example e2e_model_examples :
 Proof. vm_compute. reflexivity. Qed.
 
 (* network cases: R = 203.0.113.7 reads through the trusted proxy P = 127.0.0.3 with credentials the manager admits from
-   P only. Refused: fine. Admitted: a violation (the manager was asked about the proxy). The same client with
+   P only. Refused: fine. Accepted: a violation (the manager was asked about the proxy). The same client with
    credentials admitted from R: admitted is fine, refused is a (model) mismatch; a forged header from an untrusted peer. *)
 Example e2en_examples :
   let n := [99; 97; 109] in
